@@ -152,6 +152,8 @@ class _Interp:
     self.events = []        # one dict per `.visit(<local instance>)` executed
     self.lineage = {}       # id(tree) -> {"root": name of the parsed text} | {"parent", "event"}
     self.created = []       # every _Obj made, in order
+    self.entered = []       # module-level functions the run went into
+    self.called = set()     # ... and the call nodes that took it there
     self._literal = set()   # ids of sequences written as a display (fixed length)
     self._keep = []         # keeps model values alive so that ids stay unique
     self._consts = {}
@@ -724,6 +726,9 @@ class _Interp:
         fn = self.mod.functions[f.id]
         if _decorators(fn):
           raise _unmodelled(f"{f.id} is decorated")
+        self.called.add(e)
+        if fn not in self.entered:
+          self.entered.append(fn)
         return self.call(fn, None, args, kwargs)
       return _Opaque(f"{f.id}(..)")
     if isinstance(f, ast.Attribute):
